@@ -69,9 +69,16 @@ def run_case(case, ch, workdir):
             nontriv = False
         else:
             spec, _ = wc.spec_for(seed, 8000 + case["i"] * 16 + i, max_nodes=4, nested=False)
-            tspec = {"kind": "wf", "spec": spec}
-            nontriv = True
-            probe("workflow_job")
+            # generated graphs that pydra rejects (identically under every configuration)
+            # are not serialization cases
+            rstat, _rv, _re = wc.reference_run(spec, os.path.join(workdir, f"probe{i}"))
+            if rstat == "ok":
+                tspec = {"kind": "wf", "spec": spec}
+                nontriv = True
+                probe("workflow_job")
+            else:
+                tspec = {"kind": "two", "x": ch.choose(9, "x")}
+                nontriv = False
         wk = ch.pick(["debug", "debug", "cf", "slurm", "sge"], "worker") if tk != "wf" else "debug"
         sub = {"worker": wk}
         if wk == "cf":
